@@ -1285,6 +1285,16 @@ func (broker *Broker) finish(file sts.Polled) {
 		// picked up again to be sent redundantly.
 		broker.Conf.Cache.Done(file.GetName(), func(cached sts.Cached) {
 			if broker.canDelete(cached) {
+				// Only the version that was confirmed may be deleted: if the file
+				// on disk is not the one in the cache anymore (rewritten or created
+				// anew under the same name while it was in flight) leave it for
+				// the next scan, which will pick it up as changed.
+				store := broker.Conf.Store
+				if changed, syncErr := store.Sync(cached); changed != nil ||
+					(syncErr != nil && !store.IsNotExist(syncErr)) {
+					log.Debug("Not deleting changed file:", cached.GetName())
+					return
+				}
 				if err := broker.Conf.Store.Remove(cached); err != nil {
 					broker.error("Failed to delete:", cached.GetName(), err.Error())
 					return
